@@ -19,9 +19,11 @@ def nontrivial(k):
 def run(tier, seed):
     shape = session.base(Fids=[1, 2, 3], Kinds=SHAPE, InitWorld="deep", MaxFiles=7)
     use = session.base(Fids=[1, 2, 3], Kinds=USE, AttachNames=["", "a/a"], InitWorld="deep", MaxFiles=7)
+    xdir = session.base(Fids=[1, 2, 3], Kinds=["Tattach", "Twalk", "Trenameat", "Trename"], InitWorld="deep", MaxFiles=7)
     if tier == "quick":
         mc = [("shape-d4", dict(shape, MaxDepth=4)), ("use-d4", dict(use, MaxDepth=4, Fids=[1, 2]))]
         gen = [("shape-d3", dict(shape, MaxDepth=3), "bfs"), ("use-d3", dict(use, MaxDepth=3, Fids=[1, 2]), "bfs"),
+               ("xdir-d4", dict(xdir, MaxDepth=4), "bfs"),
                ("shape-sim", dict(shape, MaxDepth=12, MaxFiles=12), "sim:40:12")]
     else:
         mc = [("shape-d5", dict(shape, MaxDepth=5)), ("use-d4", dict(use, MaxDepth=4))]
